@@ -386,6 +386,13 @@ func (ts *TermStore) BvBin(op Op, a, b *Term) *Term {
 			return ts.BVConst(w, v)
 		}
 	}
+	// signed division/remainder of a provably non-negative value by a positive constant is unsigned
+	if (op == OpBvSDiv || op == OpBvSRem) && b.IsConst() && b.val != 0 && b.val < uint64(1)<<uint(w-1) && ub(a, 6) < uint64(1)<<uint(w-1) {
+		if op == OpBvSDiv {
+			return ts.BvBin(OpBvUDiv, a, b)
+		}
+		return ts.BvBin(OpBvURem, a, b)
+	}
 	switch op {
 	case OpBvAdd, OpBvOr, OpBvXor:
 		if a.IsConst() && a.val == 0 {
@@ -428,6 +435,20 @@ func (ts *TermStore) BvBin(op Op, a, b *Term) *Term {
 		if b.IsConst() && b.val == 1 {
 			return a
 		}
+		if b.IsConst() && b.val != 0 && b.val&(b.val-1) == 0 {
+			k := 0
+			for v := b.val; v > 1; v >>= 1 {
+				k++
+			}
+			return ts.BvBin(OpBvLshr, a, ts.BVConst(w, uint64(k)))
+		}
+	case OpBvURem:
+		if b.IsConst() && b.val == 1 {
+			return ts.BVConst(w, 0)
+		}
+		if b.IsConst() && b.val != 0 && b.val&(b.val-1) == 0 {
+			return ts.BvBin(OpBvAnd, a, ts.BVConst(w, b.val-1))
+		}
 	}
 	switch op {
 	case OpBvAdd, OpBvMul, OpBvAnd, OpBvOr, OpBvXor:
@@ -457,6 +478,12 @@ func (ts *TermStore) BvCmp(op Op, a, b *Term) *Term {
 	}
 	if a == b {
 		return ts.Bool(op == OpBvUle || op == OpBvSle)
+	}
+	if b.IsConst() && (op == OpBvUlt || op == OpBvUle) {
+		u := ub(a, 6)
+		if op == OpBvUlt && u < b.val || op == OpBvUle && u <= b.val {
+			return ts.True
+		}
 	}
 	return ts.mk(&Term{op: op, sort: BoolSort, args: []*Term{a, b}})
 }
@@ -652,9 +679,16 @@ func (ts *TermStore) Ctz64(a *Term) *Term {
 	if a.IsConst() {
 		return ts.BVConst(64, uint64(bits.TrailingZeros64(a.val)))
 	}
-	// ctz(x) = popcount((x & -x) - 1)
+	// isolate the lowest set bit, then read its position off with six masks
+	c := func(v uint64) *Term { return ts.BVConst(64, v) }
 	lsb := ts.BvBin(OpBvAnd, a, ts.BvNeg(a))
-	return ts.PopCount64(ts.BvBin(OpBvSub, lsb, ts.BVConst(64, 1)))
+	masks := []uint64{0xAAAAAAAAAAAAAAAA, 0xCCCCCCCCCCCCCCCC, 0xF0F0F0F0F0F0F0F0, 0xFF00FF00FF00FF00, 0xFFFF0000FFFF0000, 0xFFFFFFFF00000000}
+	n := c(0)
+	for k, mk := range masks {
+		bit := ts.Not(ts.Eq(ts.BvBin(OpBvAnd, lsb, c(mk)), c(0)))
+		n = ts.BvBin(OpBvOr, n, ts.Ite(bit, c(uint64(1)<<uint(k)), c(0)))
+	}
+	return ts.Ite(ts.Eq(a, c(0)), c(64), n)
 }
 
 // ---- printing
